@@ -13,7 +13,7 @@ Not decided: invariance under extra blanks for all lines (regexes with optional 
 """
 import re
 
-from ..facts import render, strip, walk, fn_key, AnchorLost
+from ..facts import render, strip, walk, fn_key, AnchorLost, resolve_elements
 from ..common import check_case_insensitive_compares
 from ..units import Origins
 from .. import model
@@ -41,7 +41,7 @@ def alias_case(ctx, rid):
     if len(ms) < 1:
         raise AnchorLost('alias_tokinizer: no is_match site found (also not in its helpers)')
     for wb, t, margs in ms:
-        a = margs[1]
+        a = resolve_elements(F, margs[1])          # the element of a zipped / mapped / collected sequence, position for position
         if _always_through(a, r'::to_lowercase$') and 'original_text' in render(a):
             ctx.ok(rid, 'alias_tokinizer: is_match(to_lowercase(original_text))', 'shape', site=t['loc'])
         else:
